@@ -13,6 +13,7 @@ from sa.astutil import (anorm, call_name, calls_in, dotted, norm, walk_no_nested
                         func_params, literal, FoldError, ancestors)
 from sa.consteval import eval_init, UNKNOWN
 from sa.loader import AnalysisError
+from sa.canon import canon
 from sa.tables import Cfg, module_constants
 from checks import common, groups as G
 
@@ -194,8 +195,16 @@ def run(ctx):
     l4 = writers <= {('conformation_container', 'ConformationContainer.add_atom'),
                      ('conformation_container', 'ConformationContainer.copy_atom')}
     aa, ca = cc.func('ConformationContainer.add_atom'), cc.func('ConformationContainer.copy_atom')
-    l4 = l4 and 'atom.conformation_container = self' in norm(aa) and \
-        'new_atom.conformation_container = self' in norm(ca)
+
+    def owner_set(fn):
+        """the object appended to self.atoms also gets conformation_container = self"""
+        appended = [norm(c.args[0]) for c in calls_in(fn, nested=False)
+                    if last_attr(c) == 'append' and norm(c.func.value) == 'self.atoms' and c.args]
+        owned = [norm(st.targets[0].value) for st in walk_no_nested(fn)
+                 if isinstance(st, ast.Assign) and isinstance(st.targets[0], ast.Attribute)
+                 and st.targets[0].attr == 'conformation_container' and norm(st.value) == 'self']
+        return len(appended) == 1 and appended[0] in owned
+    l4 = l4 and owner_set(aa) and owner_set(ca)
     ctx.ob('C12.L4', 'atoms:enter-through-add/copy', l4,
            'atoms enter a conformation only through add_atom/copy_atom, both of which set '
            'conformation_container (writers %s)' % sorted(writers), cc, aa)
@@ -216,8 +225,9 @@ def run(ctx):
     l8 = len(bbc) == 1 and any(p and t == "atom.count_bonded_elements('O') == 1"
                                for t, p in fact_texts(bbc[0], ipg))
     bsa = gmod.func('BBCGroup.setup_atoms')
-    l8 = l8 and "the_oxygen = self.atom.get_bonded_elements('O')" in norm(bsa) and \
-        'self.set_interaction_atoms(the_oxygen, the_oxygen)' in norm(bsa)
+    sia = [c for c in calls_in(bsa, nested=False) if last_attr(c) == 'set_interaction_atoms']
+    l8 = l8 and len(sia) == 1 and [canon(bsa).text(a) for a in sia[0].args] == \
+        ["self.atom.get_bonded_elements('O')"] * 2
     other_bbc = [1 for m2, q2, f2 in prog.all_funcs() for c in calls_in(f2, nested=False)
                  if call_name(c) == 'BBCGroup']
     ctx.ob('C12.L8', 'BBC:one-interaction-oxygen', l8 and len(other_bbc) == 1,
@@ -388,8 +398,22 @@ def run(ctx):
     lig = gmod.func('is_ligand_group_by_groups')
     oco = [r for r in walk_no_nested(lig) if isinstance(r, ast.Return)
            and isinstance(r.value, ast.Call) and call_name(r.value) == 'OCOGroup']
-    oco_ok = len(oco) == 1 and any(p and t == 'len(bonded_oxygens) == 2' for t, p in fact_texts(oco[0], lig))
-    oco_ok = oco_ok and "bonded_oxygens = atom.get_bonded_elements('O')" in norm(lig)
+    lcan = canon(lig)
+    lparam = func_params(lig)[-1]
+
+    def two_oxygens(e, p):
+        # len(<the bonded oxygens, possibly filtered>) == 2
+        if not (p and isinstance(e, ast.Compare) and isinstance(e.ops[0], ast.Eq)
+                and try_fold(e.comparators[0]) == 2 and isinstance(e.left, ast.Call)
+                and call_name(e.left) == 'len' and len(e.left.args) == 1):
+            return False
+        arg = lcan.expr(e.left.args[0])
+        src = "%s.get_bonded_elements('O')" % lparam
+        if norm(arg) == src:
+            return True
+        return isinstance(arg, ast.ListComp) and len(arg.generators) == 1 \
+            and norm(arg.generators[0].iter) == src and norm(arg.elt) == norm(arg.generators[0].target)
+    oco_ok = len(oco) == 1 and any(two_oxygens(e, p) for e, p in facts_at(oco[0], lig))
     others = [1 for m2, q2, f2 in prog.all_funcs() for c in calls_in(f2, nested=False)
               if call_name(c) == 'OCOGroup']
     ctx.ob('C12.R2', 'lemma:OCO-two-oxygens', oco_ok and len(others) == 1,
@@ -403,7 +427,10 @@ def run(ctx):
            % ver, vmod, vmod.tree)
     cmod = prog.mod('calculations')
     gsd = cmod.func('get_smallest_distance')
-    best = [s for s in gsd.body if isinstance(s, ast.Assign) and norm(s.targets[0]) == 'res_dist']
+    cmp_ = [n for n in walk_no_nested(gsd) if isinstance(n, ast.Compare)
+            and isinstance(n.ops[0], (ast.Lt, ast.LtE))]
+    best_name = norm(cmp_[0].comparators[0]) if cmp_ else None
+    best = [s for s in gsd.body if isinstance(s, ast.Assign) and norm(s.targets[0]) == best_name]
     ctx.ob('C12.R2', 'lemma:closest-pair-sentinel-infinite',
            bool(best) and is_inf(best[0].value),
            'the closest-pair search starts from infinity, so the not-None asserts after a search '
@@ -472,16 +499,28 @@ def run(ctx):
                 if isinstance(anc, ast.Try) and any(
                         h.type is None or 'KeyError' in norm(h.type) for h in anc.handlers):
                     ok, why = True, 'try/except KeyError'
-            if not ok and tbl.startswith('EXPECTED_ATOMS') and keyt == 'self.type' and \
-                    any((not p) and t == 'ok' for t, p in facts):
-                clears = [s_ for s_ in walk_no_nested(fn) if isinstance(s_, ast.Assign)
-                          and norm(s_) == 'ok = False']
-                under = all(any(p and t.replace(' ', '') in ('self.typeinexpect.keys()', 'self.typeinexpect')
-                                for t, p in fact_texts(s_, fn)) for s_ in clears)
-                if clears and under and isinstance(acid_t, dict) and isinstance(base_t, dict) \
-                        and set(acid_t) == set(base_t):
-                    ok, why = True, ('`ok` is cleared only for a type that is a key of one table '
-                                     'and both tables have the same keys')
+            if not ok and tbl.startswith('EXPECTED_ATOMS') and keyt == 'self.type':
+                # reached only under `not <flag>`; the flag is cleared only for a
+                # type that is a key of one of the two tables
+                flags = [e.id for e, p in facts_at(node, fn) if (not p) and isinstance(e, ast.Name)]
+                fcan = canon(fn)
+                for flag in flags:
+                    clears = [s_ for s_ in walk_no_nested(fn) if isinstance(s_, ast.Assign)
+                              and norm(s_.targets[0]) == flag and isinstance(s_.value, ast.Constant)
+                              and s_.value.value is False]
+
+                    def member_of_table(e, p):
+                        if not (p and isinstance(e, ast.Compare) and isinstance(e.ops[0], ast.In)
+                                and norm(e.left) == 'self.type'):
+                            return False
+                        t = fcan.text(e.comparators[0])
+                        return t.startswith('each(') and 'EXPECTED_ATOMS_ACID_INTERACTIONS' in t \
+                            and 'EXPECTED_ATOMS_BASE_INTERACTIONS' in t
+                    under = all(any(member_of_table(e, p) for e, p in facts_at(s_, fn)) for s_ in clears)
+                    if clears and under and isinstance(acid_t, dict) and isinstance(base_t, dict) \
+                            and set(acid_t) == set(base_t):
+                        ok, why = True, ('`%s` is cleared only for a type that is a key of one '
+                                         'table and both tables have the same keys' % flag)
             key = '%s.%s:%s' % (fid[0], fid[1], anorm(node, fn)[:70])
             dup = sum(1 for o in ctx.obligations if o['key'].startswith('lookup:' + key))
             if dup:
@@ -506,9 +545,22 @@ def run(ctx):
                                   for r in raises)
     ctx.ob('C12.R4', 'rejection:only-ValueError', ok,
            'read_molecule_file raises nothing but ValueError', imod, rmf)
-    empty = [r for r in raises if any(p and t == 'len(conformations) == 0' for t, p in fact_texts(r, rmf))]
+    rcan = canon(rmf)
+
+    def is_conformations(text):
+        return text.startswith('read_pdb(') and text.endswith(')[0]')
+    empty = []
+    for r in raises:
+        for e, pol in facts_at(r, rmf):
+            if pol and isinstance(e, ast.Compare) and isinstance(e.ops[0], ast.Eq) \
+                    and isinstance(e.left, ast.Call) and call_name(e.left) == 'len' \
+                    and is_conformations(rcan.text(e.left.args[0])) and try_fold(e.comparators[0]) == 0:
+                empty.append(r)
+            elif (not pol) and is_conformations(rcan.text(e)):
+                empty.append(r)
     first_use = [s for s in walk_no_nested(rmf) if isinstance(s, ast.Assign)
-                 and norm(s.value) == 'conformations']
+                 and is_conformations(rcan.text(s.value))
+                 and not isinstance(s.targets[0], (ast.Tuple, ast.List, ast.Name))]
     ctx.ob('C12.R4', 'rejection:empty-input-before-use',
            len(empty) == 1 and bool(first_use) and empty[0].lineno < first_use[0].lineno,
            'input without atom records is rejected before the conformations are used', imod,
